@@ -170,8 +170,53 @@ def replay_dot(case):
     return bad, 2
 
 
+CAPTURE_SRC = """
+def f2():
+    {b2}
+    return f1()
+def f1():
+    {b1}
+    return f0()
+def f0():
+    {b0}
+    return model_matrix("0 + I(x * v)", df, context={k}, output="numpy")
+"""
+
+
+def replay_capture(case):
+    """model_matrix(..., context=k) called three frames deep: the name v is bound (or not) as a local of each frame, as a global, as a data column"""
+    import pandas
+    from formulaic import model_matrix
+    from formulaic.errors import FactorEvaluationError
+
+    df = pandas.DataFrame({"x": [1.0, 2.0, 3.0]})
+    if case["indata"]:
+        df["v"] = [1.0, 1.0, 1.0]
+    g = {"model_matrix": model_matrix, "df": df}
+    if case["inglobals"]:
+        g["v"] = 7.0
+    src = CAPTURE_SRC.format(k=case["k"], **{f"b{i}": (f"v = {10.0 * (i + 1)}" if case["stack"][i] else "pass") for i in range(3)})
+    exec(compile(src, "<capture>", "exec"), g)
+    base = {"formula": "0 + I(x * v)", "data": ["v"] if case["indata"] else [], "context": {"locals_of_frames": case["stack"], "global": case["inglobals"], "context_arg": case["k"]}}
+    try:
+        mm = g["f2"]()
+        got = [float(t) for t in numpy.asarray(mm, dtype=float)[:, 0]]
+        srcs = {str(v): v.source for v in mm.model_spec.variables if str(v) == "v"}
+    except FactorEvaluationError:
+        got, srcs = None, {}
+    except Exception as e:  # noqa
+        return [{**base, "why": "captured context: unexpected exception", "observed": type(e).__name__ + ": " + str(e)[:120]}], 1
+    exp = None if case["layer"] == "MISSING" else [float(case["value"]) * t for t in (1.0, 2.0, 3.0)]
+    bad = []
+    if got != exp:
+        bad.append({**base, "why": "captured context: the value of the name comes from the wrong place", "observed": got, "expected": exp, "expected_layer": case["layer"]})
+    elif exp is not None and srcs.get("v") != ("data" if case["layer"] == "data" else "context"):
+        bad.append({**base, "why": "captured context: reported source", "observed": srcs, "expected": case["layer"]})
+    return bad, 1
+
+
 def replay_case(case):
-    return replay_resolve(case) if case["kind"] == "resolve" else replay_dot(case)
+    return {"resolve": replay_resolve, "dot": replay_dot, "capture": replay_capture}[case["kind"]](case)
 
 
 def _m_dotted(match, case, detail):
@@ -196,10 +241,10 @@ def run(ctx: Ctx) -> None:
     ctx.matchers = MATCHERS
     out = workdir("c17") / "cases.ndjson"
     out.unlink(missing_ok=True)
-    r = run_tlc("MC_Env", "SPECIFICATION Spec\nCONSTANTS\n  Emit = TRUE\nINVARIANT Laws\nINVARIANT DotLaw\nINVARIANT EmitCase\n", tag="c17", env={"OUT_FILE": str(out)}, timeout=1200)
+    r = run_tlc("MC_Env", "SPECIFICATION Spec\nCONSTANTS\n  Emit = TRUE\nINVARIANT Laws\nINVARIANT DotLaw\nINVARIANT CaptureLaw\nINVARIANT EmitCase\n", tag="c17", env={"OUT_FILE": str(out)}, timeout=1200)
     if r.violated:
         ctx.model_violation(r, "MC_Env")
-    ctx.add_tlc(r, "sufficiency / necessity under the resolution order, '.' expansion law + emission")
+    ctx.add_tlc(r, "sufficiency / necessity under the resolution order, '.' expansion law, captured-frame law + emission")
     cases = read_emitted(out)
     out.unlink()
     if len(cases) != r.distinct:
